@@ -97,6 +97,7 @@ inductive Op where
   | reset                                  -- reset(): removes all agents (model.events is kept)
   | send (rid : Nat) (delay : Nat)         -- enqueue_event(Event / DelayedEvent to rid), delay in steps
   | broadcast (ty : Nat) (delay : Nat)     -- broadcast_event(type, factory)
+  | randomEvents (ty num delay : Nat) (draws : List Nat)   -- random_events(type, num, factory); `draws`: the random indices
   | step                                   -- scheduler.run_step
 deriving Repr
 
@@ -135,6 +136,16 @@ def sendAll (s : State) (delay : Nat) : List Nat → State
   | i :: rest => sendAll (send s i delay) delay rest
 
 def broadcast (s : State) (ty delay : Nat) : State := sendAll s delay (idsOfType s.agents ty)
+
+/-- `random_agents(type, num)`: `min(num, n)` draws `agent_map[get_random_integer(0, n - 1)]` from the type's id list
+(`n` its length). The random integers are an oracle: the `j`-th one is `draws[j]` (0 if the list is too short),
+reduced into `0..n-1` — `get_random_integer(0, n-1) = round(random()*(n-1))` always lies in that range. -/
+def pick (ids : List Nat) (num : Nat) (draws : List Nat) : List Nat :=
+  (List.range (min num ids.length)).map (fun j => ids.getD (draws.getD j 0 % ids.length) 0)
+
+/-- `random_events(type, num, factory)`: one event per drawn id, in draw order -/
+def randomEvents (s : State) (ty num delay : Nat) (draws : List Nat) : State :=
+  sendAll s delay (pick (idsOfType s.agents ty) num draws)
 
 /-! ### one scheduler step -/
 
@@ -183,6 +194,7 @@ def step (s : State) : Op → State
   | .reset => clear s
   | .send rid delay => send s rid delay
   | .broadcast ty delay => broadcast s ty delay
+  | .randomEvents ty num delay draws => randomEvents s ty num delay draws
   | .step => stepFn s
 
 def run (s : State) (ops : List Op) : State := ops.foldl step s
